@@ -60,6 +60,7 @@ func (r *rec) emit(fn string, args ev.M, build func() ([]byte, error)) {
 	var b []byte
 	var err error
 	p := ev.Catch(func() { b, err = build() })
+	ev.Hold("bytes returned by "+fn, b)
 	r.w.Emit(ev.M{"ev": "Build", "id": r.id, "fn": fn, "args": args, "bytes": ev.Ints(b), "err": err != nil || p != "", "panic": p != ""})
 	r.id++
 }
